@@ -283,6 +283,72 @@ class BodyView:
                     st.append(s)
         return seen
 
+    def controlling_switches(self, bb):
+        """Switch blocks S such that bb is reachable from S but not from every successor of S
+        (S decides, on at least one path, whether bb executes)."""
+        if not hasattr(self, "_ctrl"):
+            self._ctrl = {}
+            self._reach_cache = {}
+        if bb in self._ctrl:
+            return self._ctrl[bb]
+        out = []
+        for i in self.live_blocks():
+            t = self.blocks[i]["term"]
+            if t["k"] != "switch":
+                continue
+            succs = set(t["t"])
+            if len(succs) < 2:
+                continue
+            reach = []
+            for sx in succs:
+                r = self._reach_cache.get(sx)
+                if r is None:
+                    r = self.reach_set(sx)
+                    self._reach_cache[sx] = r
+                reach.append(bb in r)
+            if any(reach) and not all(reach):
+                out.append(i)
+        self._ctrl[bb] = out
+        return out
+
+    def value_controlling_switches(self, bb):
+        """Controlling switches with at least two non-diverging successors: only those make a value
+        computed in bb vary with the branch condition (an abort guard does not: if execution continues,
+        its condition had the one admissible value)."""
+        out = []
+        for sblk in self.controlling_switches(bb):
+            succs = set(self.blocks[sblk]["term"]["t"])
+            if sum(1 for x in succs if not self.diverges(x)) >= 2:
+                out.append(sblk)
+        return out
+
+    def immediate_controlling_switches(self, bb):
+        """Controlling switches of bb from which bb can be reached without passing through another
+        controlling switch of bb: the conditions that directly decide that bb executes."""
+        ctrl = self.controlling_switches(bb)
+        if len(ctrl) <= 1:
+            return list(ctrl)
+        cs = set(ctrl)
+        out = []
+        for sblk in ctrl:
+            seen = set()
+            st = [x for x in self.succ[sblk]]
+            found = False
+            while st and not found:
+                x = st.pop()
+                if x in seen:
+                    continue
+                seen.add(x)
+                if x == bb:
+                    found = True
+                    break
+                if x in cs and x != sblk:
+                    continue
+                st.extend(self.succ[x])
+            if found:
+                out.append(sblk)
+        return out
+
     def diverges(self, bb):
         """True if no `ret` terminator is reachable from bb (only panics/unreachable/loops)."""
         for x in self.reach_set(bb):
@@ -520,7 +586,9 @@ class Provenance:
                 ck = rv[1]
                 if op[0] == "k":
                     out.append(Root("const", op[3] or op[2], path, site, via))
-                elif ck.startswith("PointerCoercion") or ck in ("PtrToPtr",):
+                elif ck.startswith("PointerCoercion") or ck in ("PtrToPtr",) or \
+                        (ck == "Transmute" and is_ptr_ty(self.v.locals[op[1][0]]) and
+                         is_ptr_ty(self.v.locals[local])):
                     out += self._roots_local(op[1][0], field_path(op[1][1]) + path, depth + 1, seen,
                                              via + ("cast:" + ck,))
                 else:
